@@ -580,3 +580,17 @@ func Orient(be *ast.BinaryExpr, isLeft func(e ast.Expr) bool) (x, y ast.Expr, op
 	}
 	return be.Y, be.X, op, true
 }
+
+// ConstFloat folds e to a numeric constant if possible.
+func ConstFloat(info *types.Info, e ast.Expr) (float64, bool) {
+	tv, ok := info.Types[e]
+	if !ok || tv.Value == nil {
+		return 0, false
+	}
+	v := constant.ToFloat(tv.Value)
+	if v.Kind() != constant.Float && v.Kind() != constant.Int {
+		return 0, false
+	}
+	f, _ := constant.Float64Val(v)
+	return f, true
+}
